@@ -9,7 +9,10 @@ VARIABLES l, cfg
 Log == ndJsonDeserialize(IOEnv.TRACE)
 Ev == Log[l]
 TInit == l = 1 /\ cfg = [args |-> <<>>]
-LineOf(L) == [k \in 1..Len(L) |-> [a |-> L[k][1], vals |-> L[k][2]]]
+\* [argument, values] or, for a use of a sub-group argument, [argument, values, line given inside the sub-group]
+RECURSIVE LineOf(_)
+LineOf(L) == [k \in 1..Len(L) |-> IF Len(L[k]) > 2 THEN [a |-> L[k][1], vals |-> L[k][2], sub |-> LineOf(L[k][3])]
+                                   ELSE [a |-> L[k][1], vals |-> L[k][2]]]
 TNext == /\ l <= Len(Log) /\ l' = l + 1
          /\ \/ Ev.e = "Reset" /\ cfg' = Ev.cfg
             \/ Ev.e = "Eval" /\ UNCHANGED cfg
